@@ -774,6 +774,14 @@ def Heap.mutate (h : Heap) (k : Nat) (t : Tune) : Heap :=
   | some l => ⟨h.cells.set k (Cfg.tune ⟨l⟩ t).strategies, h.insts⟩
   | none => h
 
+/-- `instance_i.strategies = <list object k>`: re-assignment of the public attribute (not an in-place edit) — the instance
+    lets go of the list object it referred to and refers to object `k`; the old object stays, unchanged, with whoever
+    else holds it -/
+def Heap.assign (h : Heap) (i k : Nat) : Heap :=
+  match h.insts[i]? with
+  | some x => if k < h.cells.length then ⟨h.cells, h.insts.set i (k, x.2)⟩ else h
+  | none => h
+
 /-- the list object instance `i` refers to -/
 def Heap.cellOf (h : Heap) (i : Nat) : Option Nat := (h.insts[i]?).map (·.1)
 
